@@ -99,6 +99,7 @@ class Effects:
         self.returns_alias: Dict[str, Set[str]] = {}        # func -> {params}
         self.sites: Dict[str, List[Dict[str, Any]]] = {}    # func -> mutation sites (with roots)
         self.ctor_attrs: Dict[str, Dict[str, Term]] = {}
+        self._must = False
         self._build()
 
     # ------------------------------------------------------------------
@@ -128,6 +129,16 @@ class Effects:
         return self.ctor_attrs[q]
 
     # ------------------------------------------------------------------ roots
+    def roots_definite(self, it: Interp, t: Term, own: bool = False) -> Set[Root]:
+        """Roots reached through constructs that ARE views / the object itself for array inputs (basic indexing with a known basic
+        index, attribute views, reshapes, names, loop elements): the part of the may-alias answer that is a positive witness.
+        Unknown index kinds and container copies (list(x), tuple(x), ...) are left out."""
+        self._must = True
+        try:
+            return self.roots(it, t, own=own)
+        finally:
+            self._must = False
+
     def roots(self, it: Interp, t: Term, seen: Optional[Set[int]] = None, ctor: bool = False, own: bool = False) -> Set[Root]:
         """May-alias roots of term t inside function `it`.  ctor=True: t is a constructor-side term.
         own=True: roots of the object itself (a freshly built container is fresh even if it holds aliases);
@@ -171,7 +182,7 @@ class Effects:
             return self.roots(it, base, seen, ctor)
         if k == "sub":
             b = index_is_basic(t[2], scal)
-            if b is False:
+            if b is False or (b is None and self._must):
                 return set()
             return self.roots(it, t[1], seen, ctor)
         if k == "elem":
@@ -229,6 +240,9 @@ class Effects:
             args, kwargs = t[2], t[3]
             if isinstance(f, str):
                 if f in VIEW_FUNCS or f in VIEW_METHODS:
+                    if self._must and f in ("builtins.list", "builtins.tuple", "builtins.iter", "builtins.reversed", "builtins.enumerate", "builtins.zip",
+                                            "numpy.split", "numpy.array_split", "numpy.nditer", ".items", ".values", ".keys", ".get"):
+                        return set()
                     return self.roots(it, args[0], seen, ctor) if args else set()
                 if f == "numpy.array":
                     cp = dict(kwargs).get("copy")
